@@ -416,7 +416,15 @@ def run_case(case) -> Outcome:
     nontrivial = False
     s_now = dict(s)
     for i, op in enumerate(ops):
-        tag = f"call {i} {_describe(op)} (slave {_hexid(s['id'])} nid {rig.slave.active_nid} " \
+        if op["op"] == "new_device":
+            # the device handled so far is done (it keeps quiet from now on); another unconfigured
+            # device with its own identity is connected to the same bus, same master object
+            rig.slave.mute = True
+            rig.slave = RefLssSlave(op["id"], UNCONFIGURED, WAITING)
+            rig.slave.attach(rig.hub)
+            nontrivial = True
+            continue
+        tag = f"call {i} {_describe(op)} (slave {_hexid(rig.slave.identity)} nid {rig.slave.active_nid} " \
               f"state {rig.slave.state}{' MUTE' if rig.slave.mute else ''})"
         nontrivial = nontrivial or _nontrivial_op(s, op)
         _step(L, rig, op, tag, D)
@@ -597,6 +605,26 @@ def enum_cases(thorough):
             nxt = {"op": "cfg_node", "nid": 128 + n} if svc == "cfg_node" else (
                 {"op": "cfg_bit", "idx": 9 + n} if svc == "cfg_bit" else svc_op(svc, n))
             yield {"slave": slave(state=conf), "klass": "stale/" + first["op"], "ops": [first, nxt]}
+    # ... and several of them (identify services polled more than once before the next service)
+    for n, svc in enumerate(SERVICES):
+        for firsts in ([{"op": "identify_nc"}, {"op": "identify_nc"}],
+                       [{"op": "identify", "args": ident_args}, {"op": "identify_nc"}],
+                       [{"op": "identify_nc"}, {"op": "identify", "args": ident_args}, {"op": "identify_nc"}]):
+            yield {"slave": slave(state=conf), "klass": "stale/several", "ops": firsts + [svc_op(svc, n)]}
+    for firsts in ([{"op": "identify_nc"}] * 2, [{"op": "identify", "args": ident_args}, {"op": "identify_nc"}],
+                   [{"op": "identify_nc"}] * 3):
+        yield {"slave": slave(), "klass": "stale/several", "ops": firsts + [{"op": "fast_scan"}]}
+        yield {"slave": slave(), "klass": "stale/several", "ops": firsts + [{"op": "selective", "id": BASE_ID}]}
+    # commissioning loop: scan a device, give it a node id, then the next unconfigured device appears
+    second = [[0x00ABCDF0, 1, 2, 3], [0, 0, 0, 0], [BASE_ID[0] ^ 0x10, BASE_ID[1], BASE_ID[2], BASE_ID[3] & 0x0F0F0F0F],
+              [ALL1, ALL1, ALL1, ALL1], [1, 0x80000000, 0, 0x7FFFFFFF]]
+    for first_id in (BASE_ID, [ALL1] * 4, [0x00ABCDEF, 1, 2, 3]):
+        for ident2 in second:
+            yield {"slave": slave(first_id), "klass": "commission/two-devices", "ops": [
+                {"op": "fast_scan"}, {"op": "cfg_node", "nid": 5}, {"op": "store"}, {"op": "global", "mode": 0},
+                {"op": "new_device", "id": ident2}, {"op": "fast_scan"}, {"op": "inq_serial"},
+                {"op": "cfg_node", "nid": 6}, {"op": "global", "mode": 0},
+                {"op": "new_device", "id": first_id}, {"op": "fast_scan"}]}
     for args in ([0, 0, 0, 0, 0, 0], [ALL1] * 6, [1, 2, 3, 4, 5, 6], [0x01020304, 0x05060708, 0x090A0B0C,
                  0x0D0E0F10, 0x11121314, 0x15161718], [0x80000000, 0x00800000, 0x00008000, 0x00000080, 0x7F, 0x7F00]):
         yield {"slave": slave(), "ops": [{"op": "identify", "args": args}]}
